@@ -8,6 +8,12 @@ import PybtexModel.Lemmas.Scanner
 namespace Pybtex.Bst
 open Pybtex.Scanner
 
+/-- pybtex's command table (as regenerated from /repo) is the reference table -/
+theorem commands_table : Gen.bstCommands = commandTable := by decide
+
+theorem cmdArityM_eq (name : Str) : cmdArityM name = cmdArity name := by
+  simp [cmdArityM, cmdArity, commands_table]
+
 /-- a pattern only matches a non-empty prefix of the text, and returns the rest -/
 def PatSound (p : Pattern) : Prop := ∀ s v r, p.run s = some (v, r) → v ≠ [] ∧ s = v ++ r
 
@@ -217,7 +223,7 @@ theorem parseCommand_fuel (st : St) :
     have h1 := required_ok_shorter [(TokKind.name, namePat)]
       (by intro kp hkp; simp at hkp; subst hkp; exact namePat_sound) _ _ _ _ _ hreq
     simp only []
-    cases har : cmdArity name with
+    cases har : cmdArityM name with
     | none => simp
     | some arity =>
       have h2 := parseGroups_fuel arity st1
